@@ -34,3 +34,12 @@ PROPS = {
         "assumptions": ["paths of at most 4 points (3 in the quick tier), at most two paths per operand", "UBSan signed-overflow and float-cast checks are off for magnitudes above 2^29 (not claimed by the property)", "one forked child per batch of 8192 cases; hang watchdog 30 s without progress"],
     },
 }
+
+
+# the same degenerate boolean scope also serves the structural part of C03 ("for every input whatsoever") and the
+# success part of C11 (Execute returns true, NoClip yields empty solutions); appended to those properties by the loader order
+DEGEN_BOOL_QUICK = {"harness": "degen", "args": ["--n", 3, "--nc", 2, "--n2", 2, "--mag", 0, "--families", "bool_paths,bool_tree,bool_open"]}
+DEGEN_BOOL_BIG = {"harness": "degen_big", "args": ["--n", 2, "--nc", 2, "--n2", 2, "--mag", 3, "--families", "bool_paths,bool_tree,bool_open"]}
+DEGEN_BOOL_THOROUGH = {"harness": "degen", "args": ["--n", 3, "--nc", 3, "--n2", 2, "--mag", 0, "--families", "bool_paths,bool_tree,bool_open"]}
+EXTRA_RUNS = {"C03": {"quick": [DEGEN_BOOL_QUICK, DEGEN_BOOL_BIG], "thorough": [DEGEN_BOOL_THOROUGH, DEGEN_BOOL_BIG]},
+              "C11": {"quick": [DEGEN_BOOL_QUICK, DEGEN_BOOL_BIG], "thorough": [DEGEN_BOOL_THOROUGH, DEGEN_BOOL_BIG]}}
